@@ -104,6 +104,21 @@ REPEAT = {
     "nested_blocks_seq": lambda k: "void f(void){" + "{ int a; { int b; } }" * k + "}",
     "for_decl_seq": lambda k: "void f(void){" + "for (int i = 0; i < n; i++) s += i;" * k + "}",
     "typedef_chain": lambda k: "typedef int t0;" + "".join("typedef t%d t%d;" % (i, i + 1) for i in range(k)),
+    # positions inside a switch body / a labelled statement / a declaration
+    "switch_leading_stmts": lambda k: "void f(int x, int a){ switch (x) { " + "a = 1; " * k + "case 1: break; } }",
+    "switch_leading_decls": lambda k: "void f(int x){ switch (x) { " + "".join("int v%d; " % i for i in range(k)) + "case 1: break; } }",
+    "case_body_stmts": lambda k: "void f(int x, int a){ switch (x) { case 1: " + "a = 1; " * k + "break; default: " + "a = 2; " * k + "} }",
+    "default_in_the_middle": lambda k: "void f(int x){ switch (x) { " + "".join("case %d: a; " % i for i in range(k)) + "default: b; " + "".join("case %d: c; " % (i + k) for i in range(k)) + "} }",
+    "pragma_run_before_stmt": lambda k: "void f(void){ if (a)\n" + "#pragma x\n" * k + "b; }",
+    "typedef_names": lambda k: "typedef int " + ", ".join("t%d" % i for i in range(k)) + "; t0 x;",
+    "init_declarators": lambda k: "int " + ", ".join("a%d = %d" % (i, i) for i in range(k)) + ";",
+    "struct_member_list": lambda k: "struct S { int " + ", ".join("m%d" % i for i in range(k)) + "; };",
+    "compound_literals_seq": lambda k: "struct S { int m; }; void f(void){" + "(struct S){1}; " * k + "}",
+    "alignas_seq": lambda k: "_Alignas(8) " * k + "int x;",
+    "fn_ptr_params": lambda k: "void f(" + "".join("int (*p%d)(int, char *), " % i for i in range(k)) + "int q);",
+    "ternary_seq": lambda k: "void f(void){" + "a ? b : c; " * k + "}",
+    "sizeof_seq": lambda k: "typedef int T; void f(void){" + "x = sizeof(T) + sizeof y + sizeof(y); " * k + "}",
+    "enum_defs_in_fn": lambda k: "void f(void){" + "".join("enum { A%d, B%d }; " % (i, i) for i in range(k)) + "}",
     "struct_defs": lambda k: "".join("struct S%d { int a; struct S%d *p; };" % (i, i) for i in range(k)),
 }
 
@@ -227,6 +242,16 @@ def check_family(name, builder, ks, st, case, measure=None):
             if n > RATIO * pn + SLACK:
                 fail("growth", case, builder(ks[0]), "family %s: work (pycparser calls) %s - at k=%d it is %.2fx the work at k=%d (allowed %.1fx + %d)" % (name, series, k, n / max(pn, 1), pk, RATIO, SLACK), "superlinear")
         prev = (k, n)
+    # a small quadratic term hides behind a large linear one at these sizes: with
+    # four doubling sizes the second differences d_i = n(2k_i) - 2 n(k_i) cancel the
+    # linear part, and their increments e_i = d_(i+1) - d_i cancel a constant offset
+    # as well: e stays 0 for a + b k, doubles for k log k, quadruples for k^2
+    if len(series) >= 4 and all(series[i + 1][0] == 2 * series[i][0] for i in range(len(series) - 4, len(series) - 1)):
+        n1, n2, n3, n4 = [s[1] for s in series[-4:]]
+        d1, d2, d3 = n2 - 2 * n1, n3 - 2 * n2, n4 - 2 * n3
+        e1, e2 = d2 - d1, d3 - d2
+        if e2 > 0.03 * n4 + SLACK and e2 > 3 * max(e1, 0) - SLACK and d3 > 0.03 * n4:
+            fail("growth", case, builder(ks[0]), "family %s: work %s has a quadratic component: second differences %s grow by %s (x4 per doubling = k^2, x2 = k log k, 0 = linear); the excess over linear at k=%d is %.0f%% of the work" % (name, series, (d1, d2, d3), (e1, e2), series[-1][0], 100.0 * d3 / n4), "superlinear-2nd-difference")
     return True
 
 
@@ -272,7 +297,7 @@ def nest_shard(arg):
 def repeat_shard(arg):
     names, quick = arg
     st = Stats()
-    ks = (50, 100, 200) if quick else (100, 200, 400, 800)
+    ks = (25, 50, 100, 200) if quick else (100, 200, 400, 800)
 
     def job():
         for name in names:
